@@ -689,6 +689,9 @@ func (m *Flow) condFacts(cond ast.Expr, st Facts) (t, f Facts) {
 				t["nonnil:"+key] = true
 				t["true:Is("+key+","+types.ExprString(c.Args[1])+")"], f["false:Is("+key+","+types.ExprString(c.Args[1])+")"] = true, true
 			}
+			if l := m.labelOf(c, st); l != "" {
+				t["true:"+l], f["false:"+l] = true, true
+			}
 			return t, f
 		}
 	}
